@@ -1,5 +1,6 @@
 import Anysystem.Proofs.R4Defs
 import Anysystem.Proofs.SimStepThms
+import Anysystem.Proofs.DetLemmas
 /-!
 # Helper lemmas for `R4.lean` (the simulator step refines the reference semantics, rates zero)
 
@@ -138,7 +139,65 @@ theorem SimNet.core_eq {x y : SimNet T} (h : x.core = y.core) :
 
 theorem SimNet.core_procLoc {x y : SimNet T} (h : x.core = y.core) : x.procLoc = y.procLoc := (SimNet.core_eq h).2.2.2.2.2.2.2.2
 
+/-! ## what the relation sees of the node table: keys, crash flags, sortedness -/
+
+/-- crash flag of a node, by lookup -/
+def nodeFlags (l : List (Nat × SNode σ T)) : Nat → Option Bool := fun n => (amGet? n l).map (·.crashed)
+
+/-- the node table `l'` has the keys and crash flags of `l`, and is sorted if `l` is -/
+def NodesLike (l l' : List (Nat × SNode σ T)) : Prop := nodeFlags l' = nodeFlags l ∧ (KSorted l → KSorted l')
+
+theorem NodesLike.refl (l : List (Nat × SNode σ T)) : NodesLike l l := ⟨rfl, id⟩
+
+theorem NodesLike.trans {a b c : List (Nat × SNode σ T)} (h1 : NodesLike a b) (h2 : NodesLike b c) : NodesLike a c :=
+  ⟨h2.1.trans h1.1, fun h => h2.2 (h1.2 h)⟩
+
+theorem NodesLike.of_eq {l l' : List (Nat × SNode σ T)} (h : l' = l) : NodesLike l l' := h ▸ NodesLike.refl _
+
+/-- two tables derived from a common sorted one -/
+theorem NodesLike.of_common {c l l' : List (Nat × SNode σ T)} (h1 : NodesLike c l) (h2 : NodesLike c l')
+    (hc : KSorted c) : NodesLike l l' := ⟨h2.1.trans h1.1.symm, fun _ => h2.2 hc⟩
+
+theorem nodeFlags_some_false (l : List (Nat × SNode σ T)) (n : Nat) :
+    (∃ nd, amGet? n l = some nd ∧ nd.crashed = false) ↔ nodeFlags l n = some false := by
+  unfold nodeFlags
+  cases amGet? n l with
+  | none => simp
+  | some nd => simp
+
+theorem NodesLike.amHas {l l' : List (Nat × SNode σ T)} (h : NodesLike l l') (n : Nat) : amHas n l' = amHas n l := by
+  rw [amHas_eq, amHas_eq]
+  have := congrArg Option.isSome (congrFun h.1 n)
+  simpa [nodeFlags] using this
+
+theorem NodesLike.alive {l l' : List (Nat × SNode σ T)} (h : NodesLike l l') (n : Nat) :
+    (∃ nd, amGet? n l' = some nd ∧ nd.crashed = false) ↔ (∃ nd, amGet? n l = some nd ∧ nd.crashed = false) := by
+  rw [nodeFlags_some_false, nodeFlags_some_false, h.1]
+
+theorem nodesLike_amInsert (l : List (Nat × SNode σ T)) (n : Nat) {nd nd' : SNode σ T} (hn : amGet? n l = some nd)
+    (hc : nd'.crashed = nd.crashed) : NodesLike l (amInsert natLt n nd' l) := by
+  refine ⟨?_, KSorted.amInsert n nd' l⟩
+  funext k
+  simp only [nodeFlags, amGet?_amInsert]
+  by_cases hk : k = n
+  · subst hk; simp [hn, hc]
+  · simp [hk]
+
 namespace Sim
+
+theorem nodesLike_setNode (s : Sim σ T) (n : Nat) {nd nd' : SNode σ T} (hn : amGet? n s.nodes = some nd)
+    (hc : nd'.crashed = nd.crashed) : NodesLike s.nodes (s.setNode n nd').nodes :=
+  nodesLike_amInsert s.nodes n hn hc
+
+theorem nodesLike_updProc (s : Sim σ T) (n p : Nat) (f : SProc σ T → SProc σ T) :
+    NodesLike s.nodes (s.updProc n p f).nodes := by
+  unfold updProc
+  split
+  · exact NodesLike.refl _
+  · rename_i nd hn
+    split
+    · exact NodesLike.refl _
+    · exact nodesLike_setNode s n hn rfl
 
 /-- what the relation sees of a process entry: state, outbox, the timer map as a lookup function -/
 def pv (e : SProc σ T) : σ × List Msg × (Nat → Option Nat) := (e.st, e.outbox, fun name => amGet? name e.pending)
@@ -194,15 +253,15 @@ structure SameView (q q' : Sim σ T) : Prop where
   eventCount : q'.eventCount = q.eventCount
   handlers : q'.handlers = q.handlers
   net : q'.net.core = q.net.core
-  hasNode : ∀ n, amHas n q'.nodes = amHas n q.nodes
+  nodes : NodesLike q.nodes q'.nodes
   procs : ∀ n p, (q'.proc? n p).map pv = (q.proc? n p).map pv
 
-theorem SameView.refl (q : Sim σ T) : SameView q q := ⟨rfl, rfl, rfl, rfl, rfl, rfl, fun _ => rfl, fun _ _ => rfl⟩
+theorem SameView.refl (q : Sim σ T) : SameView q q := ⟨rfl, rfl, rfl, rfl, rfl, rfl, NodesLike.refl _, fun _ _ => rfl⟩
 
 theorem SameView.trans {a b c : Sim σ T} (h1 : SameView a b) (h2 : SameView b c) : SameView a c :=
   ⟨h2.clock.trans h1.clock, h2.events.trans h1.events, h2.canceled.trans h1.canceled,
    h2.eventCount.trans h1.eventCount, h2.handlers.trans h1.handlers, h2.net.trans h1.net,
-   fun n => (h2.hasNode n).trans (h1.hasNode n), fun n p => (h2.procs n p).trans (h1.procs n p)⟩
+   h1.nodes.trans h2.nodes, fun n p => (h2.procs n p).trans (h1.procs n p)⟩
 
 theorem live_congr {q q' : Sim σ T} (he : q'.events = q.events) (hc : q'.canceled = q.canceled) : q'.live = q.live := by
   unfold live; rw [he, hc]
@@ -234,7 +293,7 @@ theorem amHas_updProc (s : Sim σ T) (n p : Nat) (f : SProc σ T → SProc σ T)
 
 theorem sameView_updProc (s : Sim σ T) (n p : Nat) (f : SProc σ T → SProc σ T) (hf : ∀ e, pv (f e) = pv e) :
     SameView s (s.updProc n p f) := by
-  refine ⟨by simp, by simp, by simp, by simp, ?_, by simp, amHas_updProc s n p f, ?_⟩
+  refine ⟨by simp, by simp, by simp, by simp, ?_, by simp, nodesLike_updProc s n p f, ?_⟩
   · obtain ⟨ns, h⟩ := updProc_frame s n p f; rw [h]
   · intro n' p'
     rw [proc?_updProc]
@@ -244,14 +303,14 @@ theorem sameView_updProc (s : Sim σ T) (n p : Nat) (f : SProc σ T → SProc σ
     · rfl
 
 theorem sameView_log (s : Sim σ T) (x : SLog T) : SameView s (s.log x) :=
-  ⟨rfl, rfl, rfl, rfl, rfl, rfl, fun _ => rfl, fun _ _ => rfl⟩
+  ⟨rfl, rfl, rfl, rfl, rfl, rfl, NodesLike.refl _, fun _ _ => rfl⟩
 
 theorem sameView_draws (s : Sim σ T) (d : List T) : SameView s { s with draws := d } :=
-  ⟨rfl, rfl, rfl, rfl, rfl, rfl, fun _ => rfl, fun _ _ => rfl⟩
+  ⟨rfl, rfl, rfl, rfl, rfl, rfl, NodesLike.refl _, fun _ _ => rfl⟩
 
 theorem sameView_setLocalCount (s : Sim σ T) (n : Nat) {nd : SNode σ T} (hn : amGet? n s.nodes = some nd) (c : Nat) :
     SameView s (s.setNode n { nd with localCount := c }) :=
-  ⟨rfl, rfl, rfl, rfl, rfl, rfl, amHas_setNode s n _ (by rw [amHas_eq, hn]; rfl),
+  ⟨rfl, rfl, rfl, rfl, rfl, rfl, nodesLike_setNode s n hn rfl,
    fun n' p' => by rw [proc?_setNode_localCount s n hn]⟩
 
 end Sim
@@ -261,20 +320,21 @@ open Sim
 /-! ## congruence of the clauses -/
 
 theorem NetRel.congr {bits : T → Nat} {q q' : Sim σ T} {r r' : RState σ} (hnet : q'.net.core = q.net.core)
-    (hh : q'.handlers = q.handlers) (hn : ∀ n, amHas n q'.nodes = amHas n q.nodes) (hrn : r'.net = r.net)
+    (hh : q'.handlers = q.handlers) (hn : NodesLike q.nodes q'.nodes) (hrn : r'.net = r.net)
     (hrc : r'.crashedNodes = r.crashedNodes) (h : NetRel bits q r) : NetRel bits q' r' := by
   obtain ⟨_, e5, e1, e2, e3, _, _, _, e4⟩ := SimNet.core_eq hnet
-  refine ⟨?_, ?_, ?_, ?_, ?_, ?_, ?_⟩
+  refine ⟨?_, ?_, ?_, ?_, ?_, ?_, ?_, ?_, hn.2 h.nodesSorted⟩
   · rw [e1, e2, e3]; exact h.ratesZero
   · rw [hrn]; exact h.netFlags
   · rw [hrn, e4]; exact h.netLoc
   · intro a b ha hb
     rw [hrn, pathCut_congr hnet, hh]
-    rw [hh] at ha; rw [hn] at hb
+    rw [hh] at ha; rw [hn.amHas] at hb
     exact h.netCut a b ha hb
   · rw [hrn, e5]; exact h.maxDelay
-  · intro n; rw [hrc, hn, hh]; exact h.crashed n
-  · intro p n; rw [e4, hn]; exact h.locNodes p n
+  · intro n; rw [hrc, hn.amHas, hh]; exact h.crashed n
+  · intro p n; rw [e4, hn.amHas]; exact h.locNodes p n
+  · intro n; rw [hh, hn.alive]; exact h.handlersOk n
 
 theorem TProcRel.congr {q q' : Sim σ T} {r r' : RState σ} (hloc : q'.net.procLoc = q.net.procLoc)
     (hp : ∀ n p, (q'.proc? n p).map pvo = (q.proc? n p).map pvo) (hr : r'.procs = r.procs) (h : TProcRel q r) :
@@ -309,9 +369,9 @@ theorem TimerRel.congr {bits : T → Nat} {q q' : Sim σ T} {r r' : RState σ} {
     (hr : r'.timers = r.timers) (h : TimerRel bits q r gs) : TimerRel bits q' r' gs := by
   have hl := live_congr he hcan
   have hd := deliverable_congr he hcan hh
-  refine ⟨?_, h.ghostsSorted, ?_, ?_, ?_, h.ghostMono, h.ghostBits, ?_, ?_⟩
+  refine ⟨?_, h.ghostsNodup, h.ghostsTie, ?_, ?_, ?_, h.ghostMono, h.ghostBits, ?_, ?_⟩
   · rw [hr]; exact h.timers
-  · rw [hd]; exact h.ghostsCover
+  · rw [hl]; exact h.ghostsCover
   · rw [hd]; exact h.ghostsLive
   · rw [hc]; exact h.ghostClock
   · intro n p e hn hpe name id
@@ -322,27 +382,27 @@ theorem TimerRel.congr {bits : T → Nat} {q q' : Sim σ T} {r r' : RState σ} {
   · unfold RState.timersUnique; rw [hr]; exact h.uniq
 
 theorem FlightRel.congr {q q' : Sim σ T} {r r' : RState σ} (he : q'.events = q.events)
-    (hcan : q'.canceled = q.canceled) (hh : q'.handlers = q.handlers) (hloc : q'.net.procLoc = q.net.procLoc)
-    (hf : r'.flights = r.flights) (hrn : r'.net = r.net) (h : FlightRel q r) : FlightRel q' r' := by
-  unfold FlightRel; rw [hf, hrn, hloc, deliverable_congr he hcan hh]; exact h
+    (hcan : q'.canceled = q.canceled) (hh : q'.handlers = q.handlers)
+    (hf : r'.flights = r.flights) (h : FlightRel q r) : FlightRel q' r' :=
+  ⟨by rw [hf, deliverable_congr he hcan hh]; exact h.perm, by rw [hf]; exact h.inert⟩
 
 theorem TimedRel.sameView {bits : T → Nat} {q q' : Sim σ T} {r : RState σ} {gs : List (TimerGhost T)}
     (hv : SameView q q') (h : TimedRel bits q r gs) : TimedRel bits q' r gs :=
-  ⟨h.net.congr hv.net hv.handlers hv.hasNode rfl rfl,
+  ⟨h.net.congr hv.net hv.handlers hv.nodes rfl rfl,
    h.proc.congr (SimNet.core_procLoc hv.net) (fun n p => pvo_of_pv (hv.procs n p)) rfl,
    h.queue.congr hv.clock hv.events hv.canceled hv.eventCount hv.net,
    h.timer.congr hv.clock hv.events hv.canceled hv.handlers (fun n p => pvp_of_pv (hv.procs n p)) rfl,
-   h.flights.congr hv.events hv.canceled hv.handlers (SimNet.core_procLoc hv.net) rfl rfl⟩
+   h.flights.congr hv.events hv.canceled hv.handlers rfl⟩
 
 /-- the relation does not look at the trace of the reference state -/
 theorem TimedRel.congr_r {bits : T → Nat} {q : Sim σ T} {r r' : RState σ} {gs : List (TimerGhost T)}
     (h1 : r'.procs = r.procs) (h2 : r'.crashedNodes = r.crashedNodes) (h3 : r'.flights = r.flights)
     (h4 : r'.timers = r.timers) (h5 : r'.net = r.net) (h : TimedRel bits q r gs) : TimedRel bits q r' gs :=
-  ⟨h.net.congr rfl rfl (fun _ => rfl) h5 h2,
+  ⟨h.net.congr rfl rfl (NodesLike.refl _) h5 h2,
    h.proc.congr rfl (fun _ _ => rfl) h1,
    h.queue,
    h.timer.congr rfl rfl rfl rfl (fun _ _ => rfl) h4,
-   h.flights.congr rfl rfl rfl rfl h3 h5⟩
+   h.flights.congr rfl rfl rfl h3⟩
 
 end R4View
 
@@ -352,7 +412,7 @@ variable {σ T : Type} [TimeOps T]
 
 /-! ## lists -/
 
-theorem perm_filterMap_erase {α β : Type} [DecidableEq β] (key : α → Nat) (F : α → Option β) (l : List α)
+theorem perm_filterMap_erase {α β : Type} [BEq β] [LawfulBEq β] (key : α → Nat) (F : α → Option β) (l : List α)
     (hnd : (l.map key).Nodup) (e : α) (he : e ∈ l) (f : β) (hf : F e = some f) :
     ((l.filter (fun x => key x != key e)).filterMap F).Perm ((l.filterMap F).erase f) := by
   induction l with
@@ -446,41 +506,51 @@ open Sim
 /-! ## `FlightRel` -/
 
 theorem FlightRel.addEv {s s' : Sim σ T} {r r' : RState σ} {ev : QEv T} (h : FlightRel s r)
-    (hl : s'.live = s.live ++ [ev]) (hh : s'.handlers = s.handlers) (hloc : s'.net.procLoc = s.net.procLoc)
-    (hrn : r'.net = r.net)
-    (hf : r'.flights = r.flights ++
-      (if s.handlers.contains ev.dst then (flightOfQ s.net.procLoc r.net.maxDelay ev.data).toList else [])) :
+    (hl : s'.live = s.live ++ [ev]) (hh : s'.handlers = s.handlers) (fs : List Flight)
+    (hf : r'.flights = r.flights ++ fs)
+    (hkey : fs.map Flight.key = if s.handlers.contains ev.dst then (keyOfQ ev.data).toList else [])
+    (hin : ∀ f ∈ fs, f.o.noFault = true) :
     FlightRel s' r' := by
-  unfold FlightRel at h ⊢
-  rw [deliverable_of_live_append hl hh, hf, hrn, hloc, List.filterMap_append]
-  refine h.append ?_
-  split
-  · cases hfo : flightOfQ s.net.procLoc r.net.maxDelay ev.data <;> simp [List.filterMap_cons, hfo]
-  · simp
+  refine ⟨?_, ?_⟩
+  · rw [deliverable_of_live_append hl hh, hf, List.map_append, List.filterMap_append, hkey]
+    refine h.perm.append ?_
+    split
+    · cases hfo : keyOfQ ev.data <;> simp [List.filterMap_cons, hfo]
+    · simp
+  · intro f hfm
+    rw [hf] at hfm
+    rcases List.mem_append.1 hfm with hfm | hfm
+    · exact h.inert f hfm
+    · exact hin f hfm
 
 theorem FlightRel.filterNone {s s' : Sim σ T} {r r' : RState σ} {P : QEv T → Bool} (h : FlightRel s r)
-    (hl : s'.live = s.live.filter P) (hh : s'.handlers = s.handlers) (hloc : s'.net.procLoc = s.net.procLoc)
-    (hrn : r'.net = r.net) (hf : r'.flights = r.flights)
+    (hl : s'.live = s.live.filter P) (hh : s'.handlers = s.handlers) (hf : r'.flights = r.flights)
     (hP : ∀ x ∈ s.deliverable, P x = false → ∀ mid m src sn dst dn, x.data ≠ .msg mid m src sn dst dn) :
     FlightRel s' r' := by
-  unfold FlightRel at h ⊢
-  rw [deliverable_of_live_filter hl hh, hf, hrn, hloc, filterMap_filter_none]
-  · exact h
+  refine ⟨?_, by rw [hf]; exact h.inert⟩
+  rw [deliverable_of_live_filter hl hh, hf, filterMap_filter_none]
+  · exact h.perm
   · intro x hx hpx
     cases hd : x.data with
     | msg mid m src sn dst dn => exact absurd hd (hP x hx hpx mid m src sn dst dn)
     | timer p name => rfl
 
-theorem FlightRel.popMsg {s s' : Sim σ T} {r r' : RState σ} {e : QEv T} {f : Flight} (h : FlightRel s r)
+/-- a message copy leaves the queue, a flight with its (message, source, destination) triple leaves the reference
+    state (`hi`: the erased flight is the first one with that triple, or any one: only the multiset matters) -/
+theorem FlightRel.popMsg {s s' : Sim σ T} {r r' : RState σ} {e : QEv T} {k : Msg × Nat × Nat} {i : Nat}
+    (h : FlightRel s r)
     (hwf : s.QueueWF) (hl : s'.live = s.live.filter (fun x => x.id != e.id)) (hh : s'.handlers = s.handlers)
-    (hloc : s'.net.procLoc = s.net.procLoc) (hrn : r'.net = r.net) (he : e ∈ s.deliverable)
-    (hfe : flightOfQ s.net.procLoc r.net.maxDelay e.data = some f) (hf : r'.flights = r.flights.erase f) :
+    (he : e ∈ s.deliverable) (hke : keyOfQ e.data = some k) (hf : r'.flights = r.flights.eraseIdx i)
+    (hi : ((r.flights.eraseIdx i).map Flight.key).Perm ((r.flights.map Flight.key).erase k)) :
     FlightRel s' r' := by
-  unfold FlightRel at h ⊢
-  rw [deliverable_of_live_filter hl hh, hf, hrn, hloc]
-  refine (h.erase f).trans ?_
-  exact (perm_filterMap_erase (·.id) (fun e => flightOfQ s.net.procLoc r.net.maxDelay e.data) s.deliverable
-    (ids_nodup_deliverable s hwf) e he f hfe).symm
+  refine ⟨?_, ?_⟩
+  · rw [deliverable_of_live_filter hl hh, hf]
+    refine hi.trans ((h.perm.erase k).trans ?_)
+    exact (perm_filterMap_erase (·.id) (fun e => keyOfQ e.data) s.deliverable
+      (ids_nodup_deliverable s hwf) e he k hke).symm
+  · intro f hfm
+    rw [hf] at hfm
+    exact h.inert f (List.mem_of_mem_eraseIdx hfm)
 
 /-! ## `QueueOk` -/
 
@@ -587,23 +657,32 @@ theorem TProcRel.node_unique {q : Sim σ T} {r : RState σ} (h : TProcRel q r) {
   rw [a] at b
   exact (Option.some.inj b).symm
 
-/-- the queue changes, but no timer event addressed to a node with handler becomes live or stops being live -/
+/-- every live timer event is addressed to a node with handler -/
+theorem TimerRel.timerLive {bits : T → Nat} {s : Sim σ T} {r : RState σ} {gs : List (TimerGhost T)}
+    (h : TimerRel bits s r gs) (hwf : s.QueueWF) {x : QEv T} (hx : x ∈ s.live) {p name : Nat}
+    (hd : x.data = .timer p name) : x.dst ∈ s.handlers := by
+  obtain ⟨g, hg, hgid⟩ := h.ghostsCover x hx p name hd
+  obtain ⟨y, hy, hyid, _, _⟩ := h.ghostsLive g hg
+  rw [mem_deliverable] at hy
+  have : y = x := live_eq_of_id s hwf hy.1 hx (hyid.trans hgid)
+  exact this ▸ hy.2
+
+/-- the queue changes, but no timer event becomes live or stops being live -/
 theorem TimerRel.liveChange [LawfulTime T] {bits : T → Nat} {s s' : Sim σ T} {r r' : RState σ}
     {gs : List (TimerGhost T)} (h : TimerRel bits s r gs) (hq : QueueOk s) (hq' : QueueOk s') (hpr : TProcRel s r)
     (hloc : s'.net.procLoc = s.net.procLoc)
-    (hT : ∀ x p name, x.data = .timer p name → x.dst ∈ s.handlers → (x ∈ s'.live ↔ x ∈ s.live))
+    (hT : ∀ x p name, x.data = .timer p name → (x ∈ s'.live ↔ x ∈ s.live))
     (hh : s'.handlers = s.handlers) (hc : TimeOps.le s.clock s'.clock = true)
     (hp : ∀ n p, (s'.proc? n p).map pvp = (s.proc? n p).map pvp) (hr : r'.timers = r.timers) :
     TimerRel bits s' r' gs := by
-  refine ⟨?_, h.ghostsSorted, ?_, ?_, ?_, h.ghostMono, h.ghostBits, ?_, ?_⟩
+  refine ⟨?_, h.ghostsNodup, h.ghostsTie, ?_, ?_, ?_, h.ghostMono, h.ghostBits, ?_, ?_⟩
   · rw [hr]; exact h.timers
   · intro e he p name hd
-    rw [mem_deliverable, hh] at he
-    exact h.ghostsCover e ((mem_deliverable s e).2 ⟨(hT e p name hd he.2).1 he.1, he.2⟩) p name hd
+    exact h.ghostsCover e ((hT e p name hd).1 he) p name hd
   · intro g hg
     obtain ⟨e, he, h1, h2, h3⟩ := h.ghostsLive g hg
     rw [mem_deliverable] at he
-    exact ⟨e, (mem_deliverable s' e).2 ⟨(hT e _ _ h2 he.2).2 he.1, hh ▸ he.2⟩, h1, h2, h3⟩
+    exact ⟨e, (mem_deliverable s' e).2 ⟨(hT e _ _ h2).2 he.1, hh ▸ he.2⟩, h1, h2, h3⟩
   · intro g hg; exact LawfulTime.le_trans _ _ _ (h.ghostClock g hg) hc
   · intro n p e hn hpe name id
     rw [hh] at hn
@@ -612,15 +691,9 @@ theorem TimerRel.liveChange [LawfulTime T] {bits : T → Nat} {s s' : Sim σ T} 
     have hpl := (hpr.procs n p e' he').2
     constructor
     · rintro ⟨ev, hev, h1, h2⟩
-      have hdst : ev.dst = n := by
-        have := (hq.timerLoc ev hev p name h2).2
-        rw [hpl] at this; exact (Option.some.inj this).symm
-      exact ⟨ev, (hT ev p name h2 (hdst ▸ hn)).2 hev, h1, h2⟩
+      exact ⟨ev, (hT ev p name h2).2 hev, h1, h2⟩
     · rintro ⟨ev, hev, h1, h2⟩
-      have hdst : ev.dst = n := by
-        have := (hq'.timerLoc ev hev p name h2).2
-        rw [hloc, hpl] at this; exact (Option.some.inj this).symm
-      exact ⟨ev, (hT ev p name h2 (hdst ▸ hn)).1 hev, h1, h2⟩
+      exact ⟨ev, (hT ev p name h2).1 hev, h1, h2⟩
   · unfold RState.timersUnique; rw [hr]; exact h.uniq
 
 /-- a timer event of process `p` on node `n` (with handler) is queued under a name that is not pending -/
@@ -645,19 +718,24 @@ theorem TimerRel.addTimer [LawfulTime T] {bits : T → Nat} {s s' : Sim σ T} {r
     intro x hx hd
     have := (h.pendMap n p e hn he name x.id).2 ⟨x, hx, rfl, hd⟩
     rw [hnone] at this; cases this
-  refine ⟨?_, ?_, ?_, ?_, ?_, ?_, ?_, ?_, ?_⟩
+  refine ⟨?_, ?_, ?_, ?_, ?_, ?_, ?_, ?_, ?_, ?_⟩
   · rw [hr, List.map_append, h.timers]; rfl
-  · rw [List.map_append, List.pairwise_append]
-    refine ⟨h.ghostsSorted, by simp, ?_⟩
+  · rw [List.map_append, List.nodup_append]
+    refine ⟨h.ghostsNodup, by simp, ?_⟩
     intro a ha b hb
     simp only [List.map_cons, List.map_nil, List.mem_singleton] at hb
     obtain ⟨g, hg, rfl⟩ := List.mem_map.1 ha
     subst hb
-    exact hidlt g hg
+    exact Nat.ne_of_lt (hidlt g hg)
+  · rw [List.pairwise_append]
+    refine ⟨h.ghostsTie, by simp, ?_⟩
+    intro a ha b hb _
+    simp only [List.mem_singleton] at hb; subst hb
+    exact hidlt a ha
   · intro x hx p' name' hd
-    rw [mem_deliverable, hl, hh] at hx
-    rcases List.mem_append.1 hx.1 with hx1 | hx1
-    · obtain ⟨g, hg, hgid⟩ := h.ghostsCover x ((mem_deliverable s x).2 ⟨hx1, hx.2⟩) p' name' hd
+    rw [hl] at hx
+    rcases List.mem_append.1 hx with hx1 | hx1
+    · obtain ⟨g, hg, hgid⟩ := h.ghostsCover x hx1 p' name' hd
       exact ⟨g, List.mem_append_left _ hg, hgid⟩
     · simp only [List.mem_singleton] at hx1; subst hx1
       exact ⟨_, List.mem_append_right _ (List.mem_singleton.2 rfl), rfl⟩
@@ -738,11 +816,11 @@ theorem TimerRel.remove [LawfulTime T] {bits : T → Nat} {s s' : Sim σ T} {r r
   have hlm : ∀ x, x ∈ s'.live ↔ x ∈ s.live ∧ x.id ≠ ec.id := by
     intro x; rw [hl]; simp [List.mem_filter]
   have hpc : amGet? name e.pending = some ec.id := (h.pendMap n p e hn he name ec.id).2 ⟨ec, hec, rfl, hdata⟩
-  refine ⟨hr, h.ghostsSorted.sublist (hsub.map _), ?_, ?_, ?_, h.ghostMono.sublist hsub, ?_, ?_, ?_⟩
+  refine ⟨hr, (hsub.map _).nodup h.ghostsNodup, h.ghostsTie.sublist hsub, ?_, ?_, ?_, h.ghostMono.sublist hsub, ?_, ?_, ?_⟩
   · intro x hx p' name' hd
-    rw [mem_deliverable, hlm, hh] at hx
-    obtain ⟨g, hg, hgid⟩ := h.ghostsCover x ((mem_deliverable s x).2 ⟨hx.1.1, hx.2⟩) p' name' hd
-    exact ⟨g, (hmem g).2 ⟨hg, hgid ▸ hx.1.2⟩, hgid⟩
+    rw [hlm] at hx
+    obtain ⟨g, hg, hgid⟩ := h.ghostsCover x hx.1 p' name' hd
+    exact ⟨g, (hmem g).2 ⟨hg, hgid ▸ hx.2⟩, hgid⟩
   · intro g hg
     obtain ⟨hg1, hg2⟩ := (hmem g).1 hg
     obtain ⟨x, hx, h1, h2, h3⟩ := h.ghostsLive g hg1
@@ -988,26 +1066,25 @@ theorem TimedRel.updVisible {bits : T → Nat} {s : Sim σ T} {r : RState σ} {g
     (hpend : ∀ e, (f e).pending = e.pending) :
     TimedRel bits (s.updProc n p f)
       { r with procs := r.procs.map (fun (x : Nat × RProc σ) => if x.1 = p then (x.1, g x.2) else x) } gs :=
-  ⟨NetRel.congr (r := r) (by simp) (handlers_updProc s n p f) (amHas_updProc s n p f) rfl rfl h.net,
+  ⟨NetRel.congr (r := r) (by simp) (handlers_updProc s n p f) (nodesLike_updProc s n p f) rfl rfl h.net,
    h.proc.upd n p f g hfg he,
    h.queue.congr (by simp) (by simp) (by simp) (by simp) (by simp),
    TimerRel.congr (r := r) (by simp) (by simp) (by simp) (handlers_updProc s n p f) (pvp_updProc s n p f hpend) rfl h.timer,
-   FlightRel.congr (r := r) (by simp) (by simp) (handlers_updProc s n p f) (by simp) rfl rfl h.flights⟩
+   FlightRel.congr (r := r) (by simp) (by simp) (handlers_updProc s n p f) rfl h.flights⟩
 
 /-- a message copy is queued -/
 theorem TimedRel.addMsg [LawfulTime T] {bits : T → Nat} {s s' : Sim σ T} {r r' : RState σ}
-    {gs : List (TimerGhost T)} (h : TimedRel bits s r gs) {ev : QEv T} {mid src sn dst dn : Nat} {m : Msg}
+    {gs : List (TimerGhost T)} (h : TimedRel bits s r gs) {ev : QEv T} {mid src sn dst dn : Nat} {m : Msg} {o : Opts}
     (hev : s'.events = s.events ++ [ev]) (hcan : s'.canceled = s.canceled) (hcnt : s'.eventCount = s.eventCount + 1)
     (hc : s'.clock = s.clock) (hh : s'.handlers = s.handlers) (hnet : s'.net.core = s.net.core)
-    (hnodes : ∀ k, amHas k s'.nodes = amHas k s.nodes)
+    (hnodes : NodesLike s.nodes s'.nodes)
     (hp : ∀ n p, (s'.proc? n p).map pv = (s.proc? n p).map pv)
     (hid : ev.id = s.eventCount) (hdst : ev.dst = dn) (hdata : ev.data = .msg mid m src sn dst dn)
     (htime : TimeOps.le s.clock ev.time = true)
     (hld : amGet? dst s.net.procLoc = some dn) (hls : amGet? src s.net.procLoc = some sn)
     (h1 : r'.procs = r.procs) (h2 : r'.crashedNodes = r.crashedNodes) (h4 : r'.timers = r.timers)
-    (h5 : r'.net = r.net)
-    (h3 : r'.flights = if dn ∈ s.handlers then
-        r.flights ++ [⟨m, src, dst, zeroOpts s.net.procLoc r.net.maxDelay src dst⟩] else r.flights) :
+    (h5 : r'.net = r.net) (ho : o.noFault = true)
+    (h3 : r'.flights = if dn ∈ s.handlers then r.flights ++ [⟨m, src, dst, o⟩] else r.flights) :
     TimedRel bits s' r' gs := by
   have hfresh : ev.id ∉ s.canceled := fun hin => Nat.lt_irrefl _ (hid ▸ h.queue.cancWF _ hin)
   have hl := live_of_append hev hcan hfresh
@@ -1019,18 +1096,23 @@ theorem TimedRel.addMsg [LawfulTime T] {bits : T → Nat} {s s' : Sim σ T} {r r
   refine ⟨h.net.congr hnet hh hnodes h5 h2, h.proc.congr hloc (fun n p => pvo_of_pv (hp n p)) h1, hq', ?_, ?_⟩
   · refine h.timer.liveChange h.queue hq' h.proc hloc ?_ hh (by rw [hc]; exact LawfulTime.le_refl _)
       (fun n p => pvp_of_pv (hp n p)) h4
-    intro x p name hd _
+    intro x p name hd
     rw [hl, List.mem_append, List.mem_singleton]
     constructor
     · rintro (hx | hx)
       · exact hx
       · subst hx; rw [hdata] at hd; cases hd
     · exact Or.inl
-  · refine h.flights.addEv hl hh hloc h5 ?_
-    rw [h3, hdst]
-    by_cases hdn : dn ∈ s.handlers
-    · simp [hdn, hdata, flightOfQ]
-    · simp [hdn]
+  · refine h.flights.addEv hl hh (if dn ∈ s.handlers then [⟨m, src, dst, o⟩] else []) ?_ ?_ ?_
+    · rw [h3]; split <;> simp
+    · rw [hdst]
+      by_cases hdn : dn ∈ s.handlers
+      · simp [hdn, hdata, keyOfQ, Flight.key]
+      · simp [hdn]
+    · intro f hf
+      split at hf
+      · simp only [List.mem_singleton] at hf; subst hf; exact ho
+      · cases hf
 
 /-- `timerPending` of the reference state = the name is in the timer map of the process entry -/
 theorem TimedRel.timerPending_iff {bits : T → Nat} {s : Sim σ T} {r : RState σ} {gs : List (TimerGhost T)}
@@ -1052,7 +1134,7 @@ theorem TimedRel.timerPending_iff {bits : T → Nat} {s : Sim σ T} {r : RState 
       rw [(h.proc.procs n p e he).2] at this
       exact (Option.some.inj this).symm
     have hxd : x ∈ s.deliverable := (mem_deliverable s x).2 ⟨hx, hdst ▸ hn⟩
-    obtain ⟨g, hg, hgid⟩ := h.timer.ghostsCover x hxd p name hd
+    obtain ⟨g, hg, hgid⟩ := h.timer.ghostsCover x hx p name hd
     obtain ⟨x', hx', hid', hd', _⟩ := h.timer.ghostsLive g hg
     have : x' = x := live_eq_of_id s h.queue.queueWF ((mem_deliverable s x').1 hx').1 hx (hid'.trans hgid)
     subst this
@@ -1067,7 +1149,7 @@ theorem TimedRel.cancelTimer [LawfulTime T] {bits : T → Nat} {s s' : Sim σ T}
     (hn : n ∈ s.handlers) (he : s.proc? n p = some e) (hold : amGet? name e.pending = some old)
     (hev : s'.events = s.events) (hcan : s'.canceled = setInsert old s.canceled) (hcnt : s'.eventCount = s.eventCount)
     (hc : s'.clock = s.clock) (hh : s'.handlers = s.handlers) (hnet : s'.net.core = s.net.core)
-    (hnodes : ∀ k, amHas k s'.nodes = amHas k s.nodes)
+    (hnodes : NodesLike s.nodes s'.nodes)
     (hpo : ∀ n' p', (s'.proc? n' p').map pvo = (s.proc? n' p').map pvo)
     (hpp : ∀ n' p' e', s'.proc? n' p' = some e' → ∃ e0, s.proc? n' p' = some e0 ∧
       ∀ nm, amGet? nm e'.pending = if n' = n ∧ p' = p ∧ nm = name then none else amGet? nm e0.pending) :
@@ -1109,7 +1191,7 @@ theorem TimedRel.cancelTimer [LawfulTime T] {bits : T → Nat} {s s' : Sim σ T}
     · show r.timers.filter _ = _
       rw [h.timer.timers, List.filter_map]
       rfl
-  · refine h.flights.filterNone hl hh hloc rfl rfl ?_
+  · refine h.flights.filterNone hl hh rfl ?_
     intro x hx hpx mid m src sn dst dn hd
     simp only [bne_eq_false_iff_eq] at hpx
     have : x = ec := live_eq_of_id s h.queue.queueWF ((mem_deliverable s x).1 hx).1 hec hpx
@@ -1124,7 +1206,7 @@ theorem TimedRel.setTimer [LawfulTime T] {bits : T → Nat} {s s' : Sim σ T} {r
     (hev : s'.events = s.events ++ [⟨s.eventCount, TimeOps.add s.clock (TimeOps.ofBits d), n, n, .timer p name⟩])
     (hcan : s'.canceled = s.canceled) (hcnt : s'.eventCount = s.eventCount + 1)
     (hc : s'.clock = s.clock) (hh : s'.handlers = s.handlers) (hnet : s'.net.core = s.net.core)
-    (hnodes : ∀ k, amHas k s'.nodes = amHas k s.nodes)
+    (hnodes : NodesLike s.nodes s'.nodes)
     (hpo : ∀ n' p', (s'.proc? n' p').map pvo = (s.proc? n' p').map pvo)
     (hpp : ∀ n' p' e', s'.proc? n' p' = some e' → ∃ e0, s.proc? n' p' = some e0 ∧
       ∀ nm, amGet? nm e'.pending = if n' = n ∧ p' = p ∧ nm = name then some s.eventCount else amGet? nm e0.pending)
@@ -1140,9 +1222,7 @@ theorem TimedRel.setTimer [LawfulTime T] {bits : T → Nat} {s s' : Sim σ T} {r
     (fun mid' m' src' sn' dst' dn' hd => by cases hd)
   refine ⟨h.net.congr hnet hh hnodes h5 h2, h.proc.congr hloc hpo h1, hq', ?_, ?_⟩
   · exact h.timer.addTimer h.queue h.proc hl hh hc rfl rfl rfl rfl hn he hnone hpp hbits h4
-  · refine h.flights.addEv hl hh hloc h5 ?_
-    rw [h3]
-    simp [flightOfQ]
+  · exact h.flights.addEv hl hh [] (by rw [h3]; simp) (by simp [keyOfQ]) (by intro f hf; cases hf)
 
 end R4Prims
 
@@ -1382,7 +1462,8 @@ theorem act_sim_set (h : TimedRel bits s r gs) (hctx : r.Ctx n p) (name d : Nat)
       · simp [log, addEvent]
       · simp [log, addEvent, handlers_updProc]
       · simp [log, addEvent]
-      · intro k; simp [log, addEvent, amHas_updProc]
+      · exact nodesLike_updProc ((s.updProc n p fun e => { e with log := e.log ++ [⟨time, .tset name d once⟩] }).addEvent
+          (.timer p name) n n (TimeOps.ofBits d)).1 n p _
       · intro n' p'
         exact pvo_updProc ((s.updProc n p fun e => { e with log := e.log ++ [⟨time, .tset name d once⟩] }).addEvent
           (.timer p name) n n (TimeOps.ofBits d)).1 n p
@@ -1409,7 +1490,7 @@ theorem act_sim_set (h : TimedRel bits s r gs) (hctx : r.Ctx n p) (name d : Nat)
           fun e => { e with pending := amErase name e.pending }).cancelEvent old) hna hea hpend
         (by simp [cancelEvent]) (by simp [cancelEvent]) (by simp [cancelEvent]) (by simp [cancelEvent])
         (by simp only [cancelEvent, handlers_updProc]) (by simp [cancelEvent])
-        (by intro k; simp only [cancelEvent, amHas_updProc])
+        (nodesLike_updProc (s.updProc n p fun e => { e with log := e.log ++ [⟨time, .tset name d false⟩] }) n p _)
         (fun n' p' => pvo_updProc (s.updProc n p fun e => { e with log := e.log ++ [⟨time, .tset name d false⟩] }) n p
           (fun e => { e with pending := amErase name e.pending }) (fun e => rfl) n' p')
         (fun n' p' e' he' => pend_updProc_erase _ n p name n' p' e' he')
@@ -1426,7 +1507,10 @@ theorem act_sim_set (h : TimedRel bits s r gs) (hctx : r.Ctx n p) (name d : Nat)
         · simp [log, addEvent, cancelEvent]
         · simp [log, addEvent, cancelEvent, handlers_updProc]
         · simp [log, addEvent, cancelEvent]
-        · intro k; simp [log, addEvent, cancelEvent, amHas_updProc]
+        · exact NodesLike.of_common
+            (nodesLike_updProc (s.updProc n p fun e => { e with log := e.log ++ [⟨time, .tset name d false⟩] }) n p _)
+            (nodesLike_updProc (((s.updProc n p fun e => { e with log := e.log ++ [⟨time, .tset name d false⟩] }).cancelEvent old).addEvent
+              (.timer p name) n n (TimeOps.ofBits d)).1 n p _) ha.net.nodesSorted
         · intro n' p'
           have e1 := pvo_updProc (((s.updProc n p fun e => { e with log := e.log ++ [⟨time, .tset name d false⟩] }).cancelEvent old).addEvent
             (.timer p name) n n (TimeOps.ofBits d)).1 n p
@@ -1477,7 +1561,7 @@ theorem act_sim_cancel (h : TimedRel bits s r gs) (hctx : r.Ctx n p) (name : Nat
         hna hea hpend
         (by simp [cancelEvent, log]) (by simp [cancelEvent, log]) (by simp [cancelEvent, log]) (by simp [cancelEvent, log])
         (by simp only [cancelEvent, log, handlers_updProc]) (by simp [cancelEvent, log])
-        (by intro k; simp only [cancelEvent, log, amHas_updProc])
+        (nodesLike_updProc (s.updProc n p fun e => { e with log := e.log ++ [⟨time, .tcancel name⟩] }) n p _)
         (fun n' p' => pvo_updProc (s.updProc n p fun e => { e with log := e.log ++ [⟨time, .tcancel name⟩] }) n p
           (fun e => { e with pending := amErase name e.pending }) (fun e => rfl) n' p')
         (fun n' p' e' he' => pend_updProc_erase
@@ -1527,10 +1611,11 @@ theorem send_sim (h : TimedRel bits s r gs) (hctx : r.Ctx n p) (m : Msg) (dst tl
     subst hok'
     refine ⟨⟨0, by omega, by simp⟩, ?_⟩
     refine h.addMsg (ev := ⟨s.eventCount, TimeOps.add s.clock TimeOps.zero, n, n, .msg s.net.messageCount m p n dst n⟩)
-      rfl rfl rfl rfl rfl rfl (fun _ => rfl) (fun _ _ => rfl) rfl rfl rfl
-      (LawfulTime.le_add _ _ (LawfulTime.le_refl _)) hdl' hpl b1 b2 b4 b5 ?_
+      (o := .noFail r.net.maxDelay)
+      rfl rfl rfl rfl rfl rfl (NodesLike.refl _) (fun _ _ => rfl) rfl rfl rfl
+      (LawfulTime.le_add _ _ (LawfulTime.le_refl _)) hdl' hpl b1 b2 b4 b5 rfl ?_
     rw [b3, hcr]
-    simp [hn, zeroOpts, hpl, hdl', h.net.netLoc]
+    simp [hn]
   · rw [sendMessage_cross s m p dst n dn tl hpl hdl' hnd] at hok
     have hok' := Except.ok.inj hok
     subst hok'
@@ -1542,7 +1627,7 @@ theorem send_sim (h : TimedRel bits s r gs) (hctx : r.Ctx n p) (m : Msg) (dst tl
       rw [cross_dropped _ _ _ _ _ _ _ hdr]
       refine ⟨⟨1, by omega, rfl⟩, ?_⟩
       refine TimedRel.congr_r b1 b2 ?_ b4 b5
-        (TimedRel.sameView (q := s) ⟨rfl, rfl, rfl, rfl, rfl, rfl, fun _ => rfl, fun _ _ => rfl⟩ h)
+        (TimedRel.sameView (q := s) ⟨rfl, rfl, rfl, rfl, rfl, rfl, NodesLike.refl _, fun _ _ => rfl⟩ h)
       rw [b3, hpe, hcut]
       simp [hnd]
     | false =>
@@ -1556,11 +1641,12 @@ theorem send_sim (h : TimedRel bits s r gs) (hctx : r.Ctx n p) (m : Msg) (dst tl
       have hdrw : LawfulTime.isDraw (dr s.draws (3 + 0)) := hdraws _ (dr_mem _ _ (by omega))
       have hb := LawfulTime.scale_bounds s.net.minDelay s.net.maxDelay _ h.queue.delaysOk.2 hdrw
       refine h.addMsg (ev := copyEv s (.msg s.net.messageCount m p n dst dn) n dn 3 0)
-        (by simp [List.range_succ]) rfl rfl rfl rfl rfl (fun _ => rfl) (fun _ _ => rfl) (by simp [copyEv]) rfl rfl
-        (LawfulTime.le_add _ _ (LawfulTime.le_trans _ _ _ h.queue.delaysOk.1 hb.1)) hdl' hpl b1 b2 b4 b5 ?_
+        (o := .faults false 0 false)
+        (by simp [List.range_succ]) rfl rfl rfl rfl rfl (NodesLike.refl _) (fun _ _ => rfl) (by simp [copyEv]) rfl rfl
+        (LawfulTime.le_add _ _ (LawfulTime.le_trans _ _ _ h.queue.delaysOk.1 hb.1)) hdl' hpl b1 b2 b4 b5 rfl ?_
       rw [b3, hpe, hcut, hcr]
       by_cases hdn : dn ∈ s.handlers
-      · simp [copyEv, hdn, hnd, zeroOpts, hpl, hdl', h.net.netLoc, hf1, hf2, hf3]
+      · simp [copyEv, hdn, hnd, hf1, hf2, hf3]
       · simp [copyEv, hdn, hnd]
 
 theorem act_sim_send (h : TimedRel bits s r gs) (hctx : r.Ctx n p) (m : Msg) (dst : Nat)
@@ -1636,32 +1722,40 @@ theorem acts_sim [LawfulTime T] {bits : T → Nat} {n p : Nat} {time : T} {s' : 
 
 /-! ## the oldest copy of a flight -/
 
-/-- index of the first occurrence -/
-def firstIdx (f : Flight) : List Flight → Nat
+/-- index of the first flight with the given (message, source, destination) triple -/
+def firstKeyIdx (k : Msg × Nat × Nat) : List Flight → Nat
   | [] => 0
-  | a :: l => if a = f then 0 else firstIdx f l + 1
+  | a :: l => if a.key = k then 0 else firstKeyIdx k l + 1
 
-theorem firstIdx_spec (f : Flight) (l : List Flight) (hf : f ∈ l) :
-    l[firstIdx f l]? = some f ∧ l.eraseIdx (firstIdx f l) = l.erase f ∧ ∀ g ∈ l.take (firstIdx f l), g ≠ f := by
+theorem firstKeyIdx_spec (k : Msg × Nat × Nat) (l : List Flight) (hk : k ∈ l.map Flight.key) :
+    ∃ f, l[firstKeyIdx k l]? = some f ∧ f.key = k ∧
+      (l.eraseIdx (firstKeyIdx k l)).map Flight.key = (l.map Flight.key).erase k ∧
+      ∀ g ∈ l.take (firstKeyIdx k l), g.key ≠ k := by
   induction l with
-  | nil => cases hf
+  | nil => cases hk
   | cons a l ih =>
-    by_cases ha : a = f
-    · subst ha
-      simp [firstIdx]
-    · have hfl : f ∈ l := by
-        rcases List.mem_cons.1 hf with h | h
+    by_cases ha : a.key = k
+    · refine ⟨a, ?_, ha, ?_, ?_⟩
+      · simp [firstKeyIdx, ha]
+      · simp [firstKeyIdx, ha]
+      · simp [firstKeyIdx, ha]
+    · have hkl : k ∈ l.map Flight.key := by
+        rw [List.map_cons] at hk
+        rcases List.mem_cons.1 hk with h | h
         · exact absurd h.symm ha
         · exact h
-      obtain ⟨h1, h2, h3⟩ := ih hfl
-      simp only [firstIdx, if_neg ha]
-      refine ⟨by simpa using h1, ?_, ?_⟩
-      · rw [List.eraseIdx_cons_succ, h2, List.erase_cons_tail (by simpa using ha)]
+      obtain ⟨f, h1, h2, h3, h4⟩ := ih hkl
+      refine ⟨f, ?_, h2, ?_, ?_⟩
+      · simp only [firstKeyIdx, if_neg ha]
+        simpa using h1
+      · simp only [firstKeyIdx, if_neg ha]
+        rw [List.eraseIdx_cons_succ, List.map_cons, List.map_cons, h3, List.erase_cons_tail (by simpa using ha)]
       · intro g hg
+        simp only [firstKeyIdx, if_neg ha] at hg
         rw [List.take_succ_cons] at hg
         rcases List.mem_cons.1 hg with h | h
         · subst h; exact ha
-        · exact h3 g h
+        · exact h4 g h
 
 /-! ## inversion -/
 
@@ -1748,7 +1842,7 @@ theorem pop_frame (h : TimedRel bits q r gs) (hf : q.events.length < fuel) (hne 
   obtain ⟨h1, h2, h3, h4, h5, h6, h7, h8⟩ := nextEvent_frame_r4 fuel q s1 e hne
   obtain ⟨k1, k2, _⟩ := nextEvent_some q s1 e fuel hf h.queue.queueWF hne
   obtain ⟨m1, _, _⟩ := nextEvent_keeps q s1 e fuel hf h.queue.queueWF h.queue.clockOk hne
-  refine ⟨NetRel.congr (r := r) (by rw [h1]) h3 (fun n => by rw [h2]) rfl rfl h.net,
+  refine ⟨NetRel.congr (r := r) (by rw [h1]) h3 (NodesLike.of_eq h2) rfl rfl h.net,
     TProcRel.congr (r := r) (by rw [h1]) (fun n p => by rw [proc?_of_nodes h2]) rfl h.proc,
     h.queue.pop hf hne, m1, k1, h8, h3, h1, h2, h5, h6, k2⟩
 
@@ -1759,7 +1853,7 @@ theorem pop_undeliverable (h : TimedRel bits q r gs) (hf : q.events.length < fue
   have hpp : ∀ n p, (s1.proc? n p).map pvp = (q.proc? n p).map pvp := fun n p => by rw [proc?_of_nodes f9]
   refine ⟨f1, f2, f3, ?_, ?_⟩
   · refine h.timer.liveChange h.queue f3 h.proc (by rw [f8]) ?_ f7 f4 hpp rfl
-    intro x p name hd hx
+    intro x p name hd
     rw [f6, List.mem_filter]
     constructor
     · exact fun hm => hm.1
@@ -1769,8 +1863,8 @@ theorem pop_undeliverable (h : TimedRel bits q r gs) (hf : q.events.length < fue
       intro hid
       have := live_eq_of_id q h.queue.queueWF hm f5 hid
       subst this
-      exact hdst hx
-  · refine h.flights.filterNone f6 f7 (by rw [f8]) rfl rfl ?_
+      exact hdst (h.timer.timerLive h.queue.queueWF hm hd)
+  · refine h.flights.filterNone f6 f7 rfl ?_
     intro x hx hpx
     simp only [bne_eq_false_iff_eq] at hpx
     have := live_eq_of_id q h.queue.queueWF ((mem_deliverable q x).1 hx).1 f5 hpx
@@ -1780,16 +1874,17 @@ theorem pop_undeliverable (h : TimedRel bits q r gs) (hf : q.events.length < fue
 /-- a message copy is popped: its flight leaves the reference state -/
 theorem r4_pop_msg (h : TimedRel bits q r gs) (hf : q.events.length < fuel)
     (hne : nextEvent fuel q = (some e, s1)) (hdst : e.dst ∈ q.handlers) {mid src sn dst dn : Nat} {m : Msg}
-    (hd : e.data = .msg mid m src sn dst dn) (r' : RState σ)
+    (hd : e.data = .msg mid m src sn dst dn) (r' : RState σ) (i : Nat)
     (h1 : r'.procs = r.procs) (h2 : r'.crashedNodes = r.crashedNodes) (h4 : r'.timers = r.timers)
     (h5 : r'.net = r.net)
-    (h3 : r'.flights = r.flights.erase ⟨m, src, dst, zeroOpts q.net.procLoc r.net.maxDelay src dst⟩) :
+    (h3 : r'.flights = r.flights.eraseIdx i)
+    (hi : ((r.flights.eraseIdx i).map Flight.key).Perm ((r.flights.map Flight.key).erase (m, src, dst))) :
     TimedRel bits s1 r' gs := by
   obtain ⟨f1, f2, f3, f4, f5, f6, f7, f8, f9, _, _, _⟩ := pop_frame h hf hne
   have hpp : ∀ n p, (s1.proc? n p).map pvp = (q.proc? n p).map pvp := fun n p => by rw [proc?_of_nodes f9]
-  refine ⟨NetRel.congr (r := r) rfl rfl (fun _ => rfl) h5 h2 f1, TProcRel.congr (r := r) rfl (fun _ _ => rfl) h1 f2, f3, ?_, ?_⟩
+  refine ⟨NetRel.congr (r := r) rfl rfl (NodesLike.refl _) h5 h2 f1, TProcRel.congr (r := r) rfl (fun _ _ => rfl) h1 f2, f3, ?_, ?_⟩
   · refine h.timer.liveChange h.queue f3 h.proc (by rw [f8]) ?_ f7 f4 hpp h4
-    intro x p name hdx hx
+    intro x p name hdx
     rw [f6, List.mem_filter]
     constructor
     · exact fun hm => hm.1
@@ -1800,8 +1895,8 @@ theorem r4_pop_msg (h : TimedRel bits q r gs) (hf : q.events.length < fuel)
       have := live_eq_of_id q h.queue.queueWF hm f5 hid
       subst this
       rw [hd] at hdx; cases hdx
-  · exact h.flights.popMsg h.queue.queueWF f6 f7 (by rw [f8]) h5 ((mem_deliverable q e).2 ⟨f5, hdst⟩)
-      (by rw [hd]; rfl) h3
+  · exact h.flights.popMsg h.queue.queueWF f6 f7 ((mem_deliverable q e).2 ⟨f5, hdst⟩)
+      (by rw [hd]; rfl) h3 hi
 
 end R4Pop
 
@@ -1819,7 +1914,7 @@ theorem ghost_of_timer (h : TimedRel bits q r gs) (he : e ∈ q.deliverable) {p 
     (hd : e.data = .timer p name) :
     ∃ g ∈ gs, g.id = e.id ∧ g.proc = p ∧ g.name = name ∧
       e.time = TimeOps.add g.setClock (TimeOps.ofBits g.delay) := by
-  obtain ⟨g, hg, hgid⟩ := h.timer.ghostsCover e he p name hd
+  obtain ⟨g, hg, hgid⟩ := h.timer.ghostsCover e ((mem_deliverable q e).1 he).1 p name hd
   obtain ⟨x, hx, hxid, hxd, hxt⟩ := h.timer.ghostsLive g hg
   have : x = e := live_eq_of_id q h.queue.queueWF ((mem_deliverable q x).1 hx).1 ((mem_deliverable q e).1 he).1
     (hxid.trans hgid)
@@ -1863,11 +1958,10 @@ theorem popped_timer_unblocked (h : TimedRel bits q r gs)
     simp only [TimerGhost.toPTimer, Bool.and_eq_true, beq_iff_eq, decide_eq_true_eq] at hb
     obtain ⟨_, hdel⟩ := hb
     have hg'gs : g' ∈ gs := by rw [hgs]; exact List.mem_append_left _ hg'
-    -- earlier in creation order, set no later
-    have hsorted := h.timer.ghostsSorted
-    rw [hgs, List.map_append, List.pairwise_append] at hsorted
-    have hidlt : g'.id < g.id :=
-      hsorted.2.2 _ (List.mem_map_of_mem hg') _ (by simp)
+    -- earlier in the list: set no later, and the smaller id in case of a tie
+    have htie := h.timer.ghostsTie
+    rw [hgs, List.pairwise_append] at htie
+    have hidlt : g'.fire = g.fire → g'.id < g.id := htie.2.2 g' hg' g (by simp)
     have hmono := h.timer.ghostMono
     rw [hgs, List.pairwise_append] at hmono
     have hclk : TimeOps.le g'.setClock g.setClock = true := hmono.2.2 g' hg' g (by simp)
@@ -1885,10 +1979,15 @@ theorem popped_timer_unblocked (h : TimedRel bits q r gs)
     have ht : TimeOps.le x'.time e.time = true := by
       rw [hx't, hgt]
       exact LawfulTime.le_trans _ _ _ (LawfulTime.add_mono _ _ _ hdle) (hadd _ _ _ hclk)
-    have hbefore : evBefore x' e = true :=
-      (evBefore_iff x' e).2 (Or.inr ⟨ht, by rw [hx'id, ← hgid]; exact hidlt⟩)
-    rw [fmin x' ((mem_deliverable q x').1 hx').1] at hbefore
-    cases hbefore
+    -- the popped event is minimal in `(time, id)`: the times are equal and its id is not larger
+    obtain ⟨hmin1, hmin2⟩ := (evBefore_eq_false_iff x' e).1 (fmin x' ((mem_deliverable q x').1 hx').1)
+    have hteq : x'.time = e.time := LawfulTime.le_antisymm _ _ ht hmin1
+    have hfire : g'.fire = g.fire := by
+      unfold TimerGhost.fire; rw [← hx't, ← hgt]; exact hteq
+    have h1 := hidlt hfire
+    have h2 := hmin2 ht
+    rw [hx'id, ← hgid] at h2
+    exact absurd h1 (Nat.not_lt.2 h2)
 
 /-- after popping a timer event and forgetting its name (the bookkeeping of `on_timer_fired` before the handler
     runs), the relation holds with the timer removed from the reference state -/
@@ -1915,7 +2014,8 @@ theorem r4_pop_timer (h : TimedRel bits q r gs) (hf : q.events.length < fuel)
         fun e => { e with pending := amErase name e.pending }).log x).handlers = q.handlers := by
     rw [← f7]; simp [log, handlers_updProc]
   refine ⟨?_, ?_, ?_, ?_, ?_⟩
-  · exact NetRel.congr (r := r) (by simp [log]) (by rw [hh, f7]) (by intro k; simp [log, amHas_updProc]) h5 h2 f1
+  · exact NetRel.congr (r := r) (by simp [log]) (by rw [hh, f7])
+      ((nodesLike_updProc s1 e.dst p _).trans (nodesLike_updProc (s1.updProc e.dst p _) e.dst p _)) h5 h2 f1
   · refine TProcRel.congr (r := r) (by simp [log]) ?_ h1 f2
     intro n' p'
     have e1 := pvo_updProc (s1.updProc e.dst p fun e => { e with log := e.log ++ [⟨tm, .tfired name⟩] }) e.dst p
@@ -1933,25 +2033,26 @@ theorem r4_pop_timer (h : TimedRel bits q r gs) (hf : q.events.length < fuel)
       exact ⟨eb, heb, fun nm => by rw [hrel nm, hrel2 nm]⟩
     · rw [hgs]; exact (List.sublist_cons_self g l2).append_left l1
     · intro g'
-      have hsorted := h.timer.ghostsSorted
-      rw [hgs, List.map_append, List.map_cons, List.pairwise_append, List.pairwise_cons] at hsorted
+      have hnd := h.timer.ghostsNodup
+      rw [hgs, List.map_append, List.map_cons, List.nodup_append, List.nodup_cons] at hnd
       rw [hgs]
       simp only [List.mem_append, List.mem_cons]
       constructor
       · rintro (hm | hm)
         · refine ⟨Or.inl hm, ?_⟩
           rw [← hgid]
-          exact Nat.ne_of_lt (hsorted.2.2 _ (List.mem_map_of_mem hm) _ List.mem_cons_self)
+          exact hnd.2.2 _ (List.mem_map_of_mem hm) _ List.mem_cons_self
         · refine ⟨Or.inr (Or.inr hm), ?_⟩
           rw [← hgid]
-          exact Nat.ne_of_gt (hsorted.2.1.1 _ (List.mem_map_of_mem hm))
+          intro hid
+          exact hnd.2.1.1 (hid ▸ List.mem_map_of_mem (f := fun g : TimerGhost T => g.id) hm)
       · rintro ⟨hm | hm | hm, hid⟩
         · exact Or.inl hm
         · subst hm; exact absurd hgid hid
         · exact Or.inr hm
     · rw [h4, h.timer.timers, hgs]
       simp [List.eraseIdx_append_of_length_le]
-  · refine h.flights.filterNone hl hh (by simp [log, f8]) h5 h3 ?_
+  · refine h.flights.filterNone hl hh h3 ?_
     intro y hy hpy mid m src sn dst dn hdy
     simp only [bne_eq_false_iff_eq] at hpy
     have := live_eq_of_id q h.queue.queueWF ((mem_deliverable q y).1 hy).1 f5 hpy
